@@ -4,7 +4,8 @@
 # pkg/consensus, the methods of the components that take part in apply / delete (liskbft.Module / API / Endpoint /
 # bftParamsCache, blockchain.Chain / DataAccess / blockCache, consensus.Executer), every write to one of their fields,
 # constructor initialisers, map / slice fields handed to calls, package-level variables and their writers
-# (Props/C05_NoCache.lean)
+# (Props/C05_NoCache.lean); generator.go appends the same facts for pkg/generator (Generator) as NEW tables gen*
+# (Props/C15_NoCache.lean)
 set -e
 cd "$(dirname "$0")"
 export GOFLAGS=-mod=mod GOPROXY=off GOSUMDB=off GOTOOLCHAIN=local
